@@ -34,4 +34,6 @@ VARIANTS = [
       also=((E, "        return self._mapping.get((tag.term, tag.value))", "        return self._mapping.get((tag.value, tag.term))"),)),
     V("N-checking-validator-only", D + "predicted_tags.py", "from pydantic import BaseModel, Field\n", "from pydantic import BaseModel, Field, field_validator\n", None,
       also=((D + "predicted_tags.py", "    score: float = Field(", "    @field_validator(\"score\")\n    def _same(cls, v):\n        return v\n\n    score: float = Field("),)),
+    # G.12
+    V("empty-tag-list-rejected(G.12)", "src/soundevent/evaluation/encoding.py", "    encoded = np.zeros(encoder.num_classes, dtype=np.int32)", "    if len(tags) == 0:\n        raise ValueError(\"No tags to encode.\")\n\n    encoded = np.zeros(encoder.num_classes, dtype=np.int32)", "G.12"),
 ]
